@@ -154,4 +154,70 @@ Lemma config_panics_refuted x :
   imp (Cfg FUnknown (JArr [JNum x; JNum x]) []) = Err.
 Proof. repeat split; reflexivity. Qed.
 
+(* ---------------------------------------------------------------- the assembled round trip: induction over the tree *)
+(* the distributions generated by the leaf families (15 plain + categorical; the binomial family is NOT a leaf here:
+   F-CONFIG-BINOMIAL) under log transform, translation and mixtures of any arity, nested to any depth *)
+Inductive rt_scalar : dist F -> Prop :=
+| RtLeaf f st : (plain_fam f = true \/ f = FCategorical) -> (exists ps, imp_simple f ps = Ok st) -> rt_scalar (Dist f st [])
+| RtWrap f c d : (f = FLogT \/ f = FTrans) -> rt_scalar d -> rt_scalar (Dist f [c] [d])
+| RtMix lw ds : norm lw = lw -> Forall rt_scalar ds -> rt_scalar (Dist FMixture lw ds).
+(* ... and, at the top only (the vector registry), i.i.d. copies of such a scalar distribution *)
+Inductive rt_dist : dist F -> Prop :=
+| RtScalar d : rt_scalar d -> rt_dist d
+| RtIid c d : ftrunc c = c -> rt_scalar d -> rt_dist (Dist FIid [c] [d]).
+
+Lemma dist_ind' (P : dist F -> Prop) :
+  (forall f ps ds, Forall P ds -> P (Dist f ps ds)) -> forall d, P d.
+Proof.
+  intros H. fix IH 1. intros [f ps ds]. apply H.
+  revert ds. fix IHl 1. intros [|d ds]; constructor; [apply IH|apply IHl].
+Qed.
+
+Lemma scalar_roundtrip_all : forall d, rt_scalar d -> scalar_fam (root_fam d) = true /\ imp (expo d) = Ok d.
+Proof.
+  induction d as [f ps ds IH] using dist_ind'. intros Hrt.
+  inversion Hrt as [f' st Hf Hex | f' c d Hf Hd | lw ds' Hn Hall]; subst.
+  - (* leaf *)
+    destruct Hex as [ps0 Hps0]. split.
+    + destruct Hf as [Hf| ->]; [destruct f; try discriminate Hf|]; reflexivity.
+    + eapply (leaf_roundtrip f ps0 ps Hf). rewrite (imp_leaf f _ _ Hf), get_floats_nums. simpl. rewrite Hps0. reflexivity.
+  - (* log transform / translation *)
+    inversion IH as [|? ? IHd _]; subst. destruct (IHd Hd) as [Hs Hdd]. split.
+    + destruct Hf as [->| ->]; reflexivity.
+    + apply wrapper_roundtrip; [destruct Hf; auto|assumption|assumption].
+  - (* mixture *)
+    split; [reflexivity|]. apply mixture_roundtrip; [assumption|].
+    clear Hrt Hn. induction Hall as [|d ds Hd Hds IHds]; [constructor|].
+    inversion IH as [|? ? IHd IHrest]; subst. constructor; [apply IHd; assumption|apply IHds; assumption].
+Qed.
+
+(* import (export d) = d for EVERY nesting of mixtures / transforms / (top-level) iid over the leaf families *)
+Lemma config_tree_roundtrip : forall d, rt_dist d -> imp (expo d) = Ok d.
+Proof.
+  intros d [d' Hs|c d' Hc Hs].
+  - apply scalar_roundtrip_all; assumption.
+  - destruct (scalar_roundtrip_all d' Hs) as [Hsc Hd]. apply wrapper_roundtrip; auto.
+Qed.
+
+(* the binomial family is excluded visibly: no derivation contains it, at any depth the tree is then outside the theorem *)
+Lemma binomial_not_rt ps ds : ~ rt_dist (Dist FBinomial ps ds).
+Proof.
+  intros H. inversion H as [d Hs|]; subst.
+  inversion Hs as [f' st Hf Hex | f' c d' Hf Hd | ]; subst.
+  - destruct Hf as [Hf|Hf]; discriminate Hf.
+  - destruct Hf as [Hf|Hf]; discriminate Hf.
+Qed.
+
+(* ... and it is not only outside the theorem: one binomial leaf (theta < 1) anywhere under transforms makes the
+   whole re-import fail *)
+Lemma binomial_poisons_wrappers theta n f c :
+  (f = FLogT \/ f = FTrans \/ f = FIid) -> flt (flog theta) zero = true ->
+  imp (expo (Dist f [c] [Dist FBinomial [flog theta; n] []])) = Err.
+Proof.
+  intros Hf H. assert (He : expo (Dist f [c] [Dist FBinomial [flog theta; n] []]) =
+                            Cfg f (JArr [JNum c]) [Cfg FBinomial (JArr [JNum (flog theta); JNum n]) []])
+    by (destruct Hf as [->|[->| ->]]; reflexivity).
+  rewrite He, (imp_wrapper f c _ Hf). simpl. rewrite H. reflexivity.
+Qed.
+
 End ConfigProofs.
